@@ -639,6 +639,41 @@ func checkC20(p *Program, r *Report) {
 	r.Floor("C20.section", 10)
 	r.Floor("C20.reentry", 6)
 	r.Floor("C20.args", 5)
+	// C20.private (round 6, C20-agent6-m2): the lock of a filter protects the state reachable from THAT filter.  A second
+	// Filter built around the message of the first (LoadFilter(f.MsgFilterLoad()) to "pin" the current message) has
+	// its own mutex over the same bit array: everything done through it runs outside the first filter's critical
+	// sections.  At every store into a guarded field, anywhere in the repository (closed over in-repo callees), the
+	// stored pointer does not come out of a guarded field of a filter.
+	{
+		sfEf := NewEffects(p)
+		nst := 0
+		for _, fn := range p.Funcs {
+			if fn.Parent() != nil {
+				continue
+			}
+			for _, sf := range sfEf.StoreFacts(fn) {
+				if sf.Field == nil || !guarded[sf.Field] {
+					continue
+				}
+				nst++
+				var shared []string
+				for v := range sf.Vals {
+					for gf := range guarded {
+						if strings.Contains(v.Path, "."+gf.Name()) {
+							shared = append(shared, v.String())
+						}
+					}
+				}
+				sort.Strings(shared)
+				r.Add("C20.private", FnName(fn), "the state stored into "+sf.Field.Name()+" of a filter is not the guarded state of a filter", sf.Pos, len(shared) == 0,
+					"stored value may be "+strings.Join(dedup(shared), ", ")+": two mutexes over one bit array")
+			}
+		}
+		if nst == 0 {
+			r.Unresolved("C20.private", "stores into the guarded field of bloom.Filter")
+		}
+		r.Floor("C20.private", 2)
+	}
 
 	checkC20gcs(p, r)
 }
